@@ -61,7 +61,7 @@ register("C08", "exploration",
 register("C20", "exploration",
          "Bounded: lint raises ValueError exactly when a documented rule (per flags) is violated - compared with a spec predicate written from the property statement - on exhaustive tiny ill-formed graphs and random ones, 16 flag combinations; generators' outputs lint-clean.",
          "oracle = vlib.spec.lint_violations; scope in evidence.bound",
-         explanation="bounded stand-in of the lint contract")
+         proof=True, explanation="bounded stand-in of the lint contract")
 
 register("C07", "exploration",
          "Bounded: the representation invariant `wired` (from the property statement) is monitored after every call of exhaustive short and random long sequences of construction-API calls with valid and invalid arguments; rejected calls must leave the edge set unchanged and raise ValueError (KeyError tolerated only for set_output of an absent node).",
